@@ -17,6 +17,7 @@ SPEC = {
         "the limit happens only through the all-streams-retired exit (C01), so all-empty with n >= 1 implies EOF "
         "everywhere; (g) the limit is re-read from the field on each call and limit_size stores its argument."
         " Thorough tier, windows: grow_result says stop exactly under total >= limit (before and after the append), parks the excess in `leftover`, and read_into obeys both answers."
+        " A stream is retired only on the zero edge of its own read() (so all-empty data means real end-of-file)."
     ),
     "not_decided": "concatenation equality as a value property; kernel buffering.",
     "trusted_base": ["rustc MIR", "Read::read(buf) returns n <= buf.len()", "slice indexing [0..e] yields length e",
@@ -39,6 +40,10 @@ def run(ctx):
         return
     rb, rt = E.reads[0]
     some_e = variant_edges(dr, Td, lambda t: t == lim, 1, [0, 1], "std::option::Option<")
+    # "a successful read returns all-empty data only when every captured stream has reached end-of-file": a stream leaves the
+    # exchange (and stops counting as open) only on a genuine 0-byte read of its own
+    import c01
+    c01.eof_retires_stream(ctx, E, dr, Td, "R03.6")
     ctx.ob("R03.1", "limit-branch", len(some_e) >= 1, dr.loc(0), "do_read distinguishes size_limit = Some(S)")
 
     def is_remaining(t):
